@@ -26,12 +26,12 @@ class Case:
 
 
 DECOY_FNS = [
-    ("clone", "(&self) -> Self"), ("clone_from", "(&mut self, source: &Self)"), ("eq", "(&self, other: &Self) -> bool"),
-    ("ne", "(&self, other: &Self) -> bool"), ("cmp", "(&self, other: &Self) -> ::core::cmp::Ordering"),
-    ("partial_cmp", "(&self, other: &Self) -> ::core::option::Option<::core::cmp::Ordering>"),
-    ("lt", "(&self, other: &Self) -> bool"), ("le", "(&self, other: &Self) -> bool"), ("gt", "(&self, other: &Self) -> bool"),
-    ("ge", "(&self, other: &Self) -> bool"), ("hash", "<DecoyH__: ::core::hash::Hasher>(&self, state: &mut DecoyH__)"),
-    ("fmt", "(&self, f: &mut ::core::fmt::Formatter<'_>) -> ::core::fmt::Result"), ("default", "() -> Self"),
+    ("clone", "(&self) -> Self"), ("clone_from", "(&mut self, decoy_arg_b: &Self)"), ("eq", "(&self, decoy_arg_b: &Self) -> bool"),
+    ("ne", "(&self, decoy_arg_b: &Self) -> bool"), ("cmp", "(&self, decoy_arg_b: &Self) -> ::core::cmp::Ordering"),
+    ("partial_cmp", "(&self, decoy_arg_b: &Self) -> ::core::option::Option<::core::cmp::Ordering>"),
+    ("lt", "(&self, decoy_arg_b: &Self) -> bool"), ("le", "(&self, decoy_arg_b: &Self) -> bool"), ("gt", "(&self, decoy_arg_b: &Self) -> bool"),
+    ("ge", "(&self, decoy_arg_b: &Self) -> bool"), ("hash", "<DecoyH__: ::core::hash::Hasher>(&self, decoy_arg_b: &mut DecoyH__)"),
+    ("fmt", "(&self, decoy_arg_b: &mut ::core::fmt::Formatter<'_>) -> ::core::fmt::Result"), ("default", "() -> Self"),
     ("into", "<DecoyX__>(self) -> DecoyX__"),
 ]
 
